@@ -455,6 +455,16 @@ def links_accumulate(repo: Repo) -> RuleRun:
 links_accumulate.rule_id = "C17.LINKS-ACCUMULATE"
 
 
+def link_chain(repo: Repo) -> RuleRun:
+    """'After the leader of a link moves, the follower is ...' - also when that leader is itself the follower of another link. Same rule as C13.LINK-CHAIN."""
+    from . import c13
+
+    return c13.link_chain(repo, PROP, "C17.LINK-CHAIN")
+
+
+link_chain.rule_id = "C17.LINK-CHAIN"
+
+
 def radial_exact(repo: Repo, prop: str = PROP, rule: str = "C17.RADIAL-EXACT") -> RuleRun:
     """'for any parameter values its position lies on the declared ... circle (same radius and height about the axis)' - for normals
     'in general position (non-unit ...)': RadialClamp is constructed by the abstract evaluator over exact rational vectors (centre,
@@ -679,4 +689,4 @@ def params_solved(repo: Repo, prop: str = PROP, rule: str = "C17.PARAMS-SOLVED")
 params_solved.rule_id = "C17.PARAMS-SOLVED"
 
 
-RULES = [purity, position_writers, link_algebra, affine_kinds, mirror_matrix, trig_domain, params_used, owns_geometry, angle_dimension, closest_search, float_stores, who_writes_points, symmetry_exact, angle_between_exact, match_tolerance, links_accumulate, radial_exact, no_alias_snapshot, rotation_exact, params_solved]
+RULES = [purity, position_writers, link_algebra, affine_kinds, mirror_matrix, trig_domain, params_used, owns_geometry, angle_dimension, closest_search, float_stores, who_writes_points, symmetry_exact, angle_between_exact, match_tolerance, links_accumulate, radial_exact, no_alias_snapshot, rotation_exact, params_solved, link_chain]
